@@ -68,7 +68,7 @@ def generate(check, rng, tier, run_index):
     members = [gen_model(rng, mode) for _ in range(rng.randint(1, 2))]
     nops = rng.randint(4, 22 if tier == 'quick' else 34)
     W = [('copy', 8), ('copycopy', 3), ('deepcopy', 5), ('pickle', 3), ('subset', 9), ('join', 6), ('traj_slice', 3),
-         ('traj_atom_slice', 3), ('traj_stack', 2), ('dataframe', 3), ('h5', 1), ('pdb', 1),
+         ('traj_atom_slice', 3), ('traj_stack', 2), ('dataframe', 3), ('h5', 1), ('pdb', 1), ('h5_handle', 1),
          ('rename', 5), ('add_bond', 5), ('add_atom', 3), ('insert_atom', 4), ('delete_atom', 5), ('add_residue', 2),
          ('add_chain', 1), ('eqhash', 4)]
     ops = []
@@ -485,6 +485,46 @@ def execute(check, case, workdir):
                 top2 = md.load(p).topology
                 drop = ('bond_type', 'bond_order')      # neither the PDB format nor the HDF5 topology JSON (pairs only) can hold them
                 derived(kind, m, top2, m.model, stepno, drop=drop, carrier=True)
+            elif kind == 'h5_handle':
+                # one open reader handed out twice, with an edit of the first result in between: what the file hands out the
+                # second time (handle.topology, the next iterload chunk) must still be what was stored
+                n = len(m.model['atoms'])
+                if any(a['serial'] == 'nan' for a in m.model['atoms']):
+                    continue
+                xyz = np.arange(3 * n * 3, dtype=np.float32).reshape(3, n, 3) * 0.01
+                p = os.path.join(workdir, 'hh%d.h5' % stepno)
+                md.Trajectory(xyz, top).save(p)
+                stored, _ = extract(md.load(p).topology)
+                res.fault('edit_between_two_reads_of_one_handle')
+                bad = None
+                with md.open(p) as fh:
+                    t1 = fh.topology
+                    if t1.n_atoms > 1:
+                        t1.delete_atom_by_index(t1.n_atoms - 1)
+                    t1.atom(0).name = 'EDIT'
+                    got, _ = extract(fh.topology)
+                    if diff(stored, got):
+                        bad = ('handle.topology', diff(stored, got))
+                if bad is None:
+                    it = md.iterload(p, chunk=1)
+                    c0 = next(it)
+                    c0.topology.atom(0).name = 'EDIT'
+                    if c0.topology.n_atoms > 1:
+                        c0.topology.delete_atom_by_index(c0.topology.n_atoms - 1)
+                    try:
+                        c1 = next(it)
+                        got, _ = extract(c1.topology)
+                        if diff(stored, got):
+                            bad = ('iterload_next_chunk', diff(stored, got))
+                    except Exception as e:
+                        bad = ('iterload_next_chunk_raises', [type(e).__name__])
+                    finally:
+                        it.close()
+                res.log.append('%d h5_handle m%d%s' % (stepno, m.id, '' if bad is None else ' LEAKED'))
+                res.trace.append(('h5_handle', bad is None))
+                if bad is not None:
+                    viol('h5_handle', 'edit_of_first_result_leaks_into_second:' + bad[0], {'attributes': bad[1]}, stepno)
+                continue
             elif kind == 'rename':
                 n = len(m.model['atoms'])
                 a = op['a'] % n
